@@ -106,6 +106,39 @@ def cases(tier: str) -> Iterator[Dict[str, Any]]:
             yield {"shape": "earn event", "country": cc, "lt": lt, "period": period, "delta": "2P", "specs": specs}
 
 
+def front_end_cases() -> Iterator[Dict[str, Any]]:
+    """The same boundary through the spreadsheet front end (parse_ods): sub-second instants, lots bought with and without a
+    crypto fee (the parser rebuilds such a lot and must keep its exact instant)."""
+    for cc, period in (("us", 365), ("es", 365)):
+        p = timedelta(days=period)
+        for acq in (datetime(2019, 3, 1, 0, 0, 0, 750000, tzinfo=timezone.utc), datetime(2020, 2, 29, 23, 59, 59, 250000, tzinfo=timezone.utc)):
+            for dn, d in (("P-0.5s", p - timedelta(milliseconds=500)), ("P-0.25s", p - timedelta(milliseconds=250)), ("P", p), ("P+0.5s", p + timedelta(milliseconds=500)),
+                          ("P-1s", p - timedelta(seconds=1))):
+                for o1, o2 in ((0, 0), (330, -12 * 60)):
+                    for fee in (None, "0.125"):
+                        ev = acq + d
+                        lot = {"table": "in", "timestamp": H.ts_str(acq, o1), "exchange": "X1", "holder": "H1", "transaction_type": "BUY", "spot_price": "10",
+                               "crypto_in": "2", "row": 0, "sym": "", "unique_id": "lot"}
+                        if fee:
+                            lot["crypto_fee"] = fee
+                        specs = [lot, {"table": "out", "timestamp": H.ts_str(ev, o2), "exchange": "X1", "holder": "H1", "transaction_type": "SELL", "spot_price": "12",
+                                       "crypto_out_no_fee": "1", "crypto_fee": "0", "row": 1, "sym": "", "unique_id": "sale"}]
+                        yield {"shape": "spreadsheet front end" + (", crypto-fee lot" if fee else ""), "country": cc, "lt": None, "period": period, "delta": dn, "specs": specs,
+                               "via_parser": True}
+
+
+def run_front_end(case: Dict[str, Any]) -> Tuple[Any, Dict[str, Any]]:
+    from rp2verif import frdriver as D
+    from rp2verif.seams import compute as C
+    from rp2verif.seams import parser as P
+
+    matrix, specs = D.to_sheet(case["specs"], "B1")
+    cfg = P.config_for(P.canonical_layout(), case["country"])
+    data = P.parse_ods(cfg, "B1", P.build_doc({"B1": matrix}))
+    computed = C.compute_tax(cfg, C.engine(((1970, "fifo"),)), data)
+    return computed, dict(case, specs=specs)
+
+
 def check_case(case: Dict[str, Any], computed: Any) -> List[str]:
     from rp2verif.models.lots import parse_ts
 
@@ -113,6 +146,8 @@ def check_case(case: Dict[str, Any], computed: Any) -> List[str]:
     problems: List[str] = []
     exp_lines: Dict[Tuple[int, str, bool], Fraction] = {}
     for gl in computed.gain_loss_set:
+        if gl.taxable_event.row not in by_row:
+            continue  # the artificial fee disposal the parser adds for a crypto-fee purchase (C11 checks it)
         ev_dt = parse_ts(by_row[gl.taxable_event.row]["timestamp"])
         if gl.acquired_lot is None:
             want = False
@@ -127,7 +162,8 @@ def check_case(case: Dict[str, Any], computed: Any) -> List[str]:
             )
         key = (ev_dt.year, gl.taxable_event.transaction_type.value, want)
         exp_lines[key] = exp_lines.get(key, Fraction(0)) + F(gl.crypto_amount)
-    got_lines = {(y.year, y.transaction_type.value, y.is_long_term_capital_gains): F(y.crypto_amount) for y in computed.yearly_gain_loss_list}
+    got_lines = {(y.year, y.transaction_type.value, y.is_long_term_capital_gains): F(y.crypto_amount) for y in computed.yearly_gain_loss_list
+                 if not (case.get("via_parser") and y.transaction_type.value == "fee")}
     if not problems and got_lines != exp_lines:
         problems.append(f"yearly summary does not split long/short as the fractions: {sorted(got_lines.items())} vs {sorted(exp_lines.items())}")
     return problems
@@ -138,23 +174,30 @@ def worker(task: Tuple[str, int, int]) -> Stats:
 
     tier, k, n = task
     st = Stats()
-    for idx, case in enumerate(cases(tier)):
+    for idx, case in enumerate(itertools.chain(cases(tier), front_end_cases())):
         if idx % n != k:
             continue
         st.inc("evaluations")
         st.inc(f"shape: {case['shape']}")
-        cfg = C.configuration(case["country"], allow_negative_balances=True, long_term_days=case["lt"])
-        base = {k2: case[k2] for k2 in ("shape", "country", "lt", "period", "delta", "specs")}
-        try:
-            out = C.run(case["specs"], ((1970, "fifo"),), cfg)
-            err = out.error
-        except Exception as exc:  # pylint: disable=broad-except
-            out, err = None, exc
+        base = {k2: case[k2] for k2 in ("shape", "country", "lt", "period", "delta", "specs", "via_parser") if k2 in case}
+        if case.get("via_parser"):
+            try:
+                computed, case = run_front_end(case)
+                out, err = C.Outcome(computed, None, None), None
+            except Exception as exc:  # pylint: disable=broad-except
+                out, err = None, exc
+        else:
+            cfg = C.configuration(case["country"], allow_negative_balances=True, long_term_days=case["lt"])
+            try:
+                out = C.run(case["specs"], ((1970, "fifo"),), cfg)
+                err = out.error
+            except Exception as exc:  # pylint: disable=broad-except
+                out, err = None, exc
         if err is not None:
             st.violation(dict(base, signature=f"C05 valid input rejected / {type(err).__name__}", what=f"{case['shape']}: {type(err).__name__}: {err}"))
             continue
         problems = check_case(case, out.computed)
-        if case["delta"] in ("P-1s", "P", "P+1s", "P / P-1s", "P-12h", "P+12h"):
+        if case["delta"] in ("P-1s", "P", "P+1s", "P / P-1s", "P-12h", "P+12h", "P-0.5s", "P-0.25s", "P+0.5s"):
             st.inc("distinct_nontrivial")
         if problems:
             st.violation(dict(base, signature=f"C05 classification / {case['country']} / {case['shape']} / {case['delta']}", what=problems[0], problems=problems))
@@ -180,7 +223,8 @@ def main(tier: str, budget_s: Optional[float] = None) -> int:
         "distinct_nontrivial": total.get("distinct_nontrivial"),
         "rule": (
             "grid of 6 acquisition instants (leap day, year end) x 9 deltas around the threshold P (P-1d, P-12h, P-1s, P, P+1s, P+12h, P+1d, 0, 2P) "
-            "x 16 UTC-offset pairs x 10 country configurations, plus a sale straddling the threshold over two lots and earn events; "
+            "x 16 UTC-offset pairs x 10 country configurations, plus a sale straddling the threshold over two lots, earn events, and the boundary through the "
+            "spreadsheet front end with sub-second instants (P-0.5s, P-0.25s, P, P+0.5s) for lots bought with and without a crypto fee; "
             "distinct by construction; non-trivial = within 12 hours of the threshold"
         ),
         "countries": [f"{c}{'' if lt is None else '/' + str(lt)}" for c, lt, _ in COUNTRIES],
@@ -206,9 +250,13 @@ def replay(path: str) -> int:
 
     with open(path, encoding="utf-8") as f:
         case = json.load(f)
-    cfg = C.configuration(case["country"], allow_negative_balances=True, long_term_days=case["lt"])
-    out = C.run(case["specs"], ((1970, "fifo"),), cfg)
-    problems = [f"{type(out.error).__name__}: {out.error}"] if out.error is not None else check_case(case, out.computed)
+    if case.get("via_parser"):
+        computed, case2 = run_front_end(case)
+        problems = check_case(case2, computed)
+    else:
+        cfg = C.configuration(case["country"], allow_negative_balances=True, long_term_days=case["lt"])
+        out = C.run(case["specs"], ((1970, "fifo"),), cfg)
+        problems = [f"{type(out.error).__name__}: {out.error}"] if out.error is not None else check_case(case, out.computed)
     if problems:
         print(f"VIOLATION property={PROP} replay={path}\n  {problems[0]}")
         return 1
